@@ -7,7 +7,7 @@ from collections import defaultdict
 import warnings
 import numbers
 
-from qupulse.hardware.awgs.base import AWG
+from qupulse.hardware.awgs.base import AWG, ProgramOverwriteException
 from qupulse.hardware.dacs import DAC
 from qupulse.program.loop import Loop
 
@@ -164,6 +164,9 @@ class HardwareSetup:
                 elif isinstance(single_channel, MarkerChannel):
                     marker_ids[single_channel.channel_on_awg] = channel_id
 
+        if name in self._registered_programs and not update:
+            raise ProgramOverwriteException(name)
+
         for awg, (playback_ids, voltage_trafos, marker_ids) in awgs_to_channel_info.items():
             if awg in handled_awgs:
                 raise ValueError('AWG has two programs')
@@ -178,6 +181,16 @@ class HardwareSetup:
 
         for dac, dac_windows in affected_dacs.items():
             dac.register_measurement_windows(name, dac_windows)
+
+        if name in self._registered_programs:
+            # re-registration: devices that took part in the old registration but do not take part in the new one
+            # must not keep the old program / windows
+            old_registration = self._registered_programs[name]
+            for awg in old_registration.awgs_to_upload_to - handled_awgs:
+                awg.arm(None)
+                awg.remove(name)
+            for dac in old_registration.dacs_to_arm - set(affected_dacs.keys()):
+                dac.delete_program(name)
 
         self._registered_programs[name] = RegisteredProgram(program=program,
                                                             measurement_windows=measurement_windows,
